@@ -1,8 +1,9 @@
 (* C12 — Governance acts only on authenticated commands; operator proposals need approval.
    Statements only; proofs in Proofs/GovFacts.v and Proofs/GovWorld.v (repaired source, fixed F-C12-1). *)
 From Coq Require Import String List NArith Lia.
-From Ax Require Import Lib.Bytes Lib.Mvx Model.Check Model.Env Model.Gateway Model.Governance
-     Proofs.GatewayMsgs Proofs.GovFacts Proofs.GovWorld Proofs.GovCount Proofs.GovCountOp Gen.Generated.
+From Coq Require Import Init.Byte.
+From Ax Require Import Lib.Bytes Lib.Mvx Lib.Keccak Model.Check Model.Env Model.Gateway Model.GatewayCheck Model.Governance
+     Proofs.GatewayMsgs Proofs.GovFacts Proofs.GovWorld Proofs.GovGwOrigin Proofs.GovCount Proofs.GovCountOp Gen.Generated.
 Import ListNotations.
 Open Scope N_scope.
 
@@ -84,6 +85,23 @@ Section C12.
     total H verify (cbo_of true) w os h <=
     total H verify (approve_of H verify) w os h + bnz (getN (gv_approvals (w_gov w)) h) + npend_op h (w_pend w).
   Proof. exact (op_successes_bounded_by_approvals H verify). Qed.
+  (* ---- END TO END (Proofs/GovGwOrigin.v) ----
+     the gateway inside the governance world is driven by gateway operations only (the gateway transactions of the history and the
+     validateMessage call of governance.execute; all nine operation kinds), so an accepted command traces back to an approveMessages
+     transaction of THIS history whose batch named exactly this command for the governance contract and which the gateway accepted
+     (c01_sound: weighted-threshold proof of a registered signer set inside the retention window) *)
+  Theorem c12_gateway_projection : forall ops w,
+    exists os, w_gw (vrun H verify true w ops) = grun H verify (w_gw w) os /\ Forall (fun go => In (VGateway go) ops \/ gis_val go) os.
+  Proof. exact (gov_gateway_projection H verify). Qed.
+  Theorem c12_command_traces_to_batch : forall ops w0 c chain id src payload w' ev,
+    mst (w_gw w0) (chain, id) = None ->
+    gov_execute H true (vrun H verify true w0 ops) c chain id src payload = Some (w', ev) ->
+    exists cg raw p ms m pre,
+      In (VGateway (GApprove cg raw p)) ops /\ dec_messages_top raw = Some ms /\ In m ms /\ mkey m = (chain, id) /\
+      mhash H m = message_hash H chain id src (x_self c) (H payload) /\
+      Forall (fun go => In (VGateway go) ops \/ gis_val go) pre /\
+      approve_messages H verify (grun H verify (w_gw w0) pre) raw p <> None.
+  Proof. exact (command_traces_to_batch H verify). Qed.
 End C12.
 
 Print Assumptions c12_execute_requires.
@@ -93,6 +111,7 @@ Print Assumptions c12_operator_dispatch.
 Print Assumptions c12_cancelled_approval_stays_cancelled.
 Print Assumptions c12_withdraw_self_only.
 Print Assumptions c12_one_success_per_approval.
+Print Assumptions c12_command_traces_to_batch.
 
 Example pin_gov_endpoints : gen_gov_endpoints = [("executeProposal", "*"); ("executeOperatorProposal", "*"); ("withdraw", ""); ("transferOperatorship", "");
    ("execute", ""); ("withdrawRefundToken", "")]%string := eq_refl.
@@ -102,3 +121,32 @@ Example pin_gov_storage : gen_gov_storage = ["gateway"; "minimum_time_lock_delay
 Check c12_tables_frame.
 Check c12_one_success_per_approval.
 Check c12_cancelled_approval_stays_cancelled.
+
+(* non-vacuity of the end-to-end statement: a gateway with a registered 3-member signer set (threshold 4) and no messages; the history
+   is ONE gateway transaction -- approveMessages naming (axelarnet, m1) from the governance address for the governance contract, signed
+   by members 2 and 3 -- after which governance.execute accepts the scheduling command *)
+Module E2E.
+  Import Refuted.
+  Definition k1 := be_enc 32 11. Definition k2 := be_enc 32 22. Definition k3 := be_enc 32 33.
+  Definition W : wsigners := {| ws_signers := [ {| s_key := k1; s_weight := 1 |}; {| s_key := k2; s_weight := 2 |}; {| s_key := k3; s_weight := 3 |} ];
+                                ws_threshold := 4; ws_nonce := zeros 32 |}.
+  Definition dom := be_enc 32 7.
+  Definition batch : bytes := enc_buf chain ++ enc_buf (str "m1") ++ enc_buf gaddr ++ self ++ keccak256 (payload 0).
+  Definition D := digest keccak256 dom (signers_hash keccak256 W) (data_hash keccak256 CMD_APPROVE batch).
+  Definition sg (k : bytes) := k ++ k.
+  Definition vfo (key msg sig : bytes) : bool := bytes_eqb msg D && bytes_eqb sig (sg key).
+  Definition proof_bytes (sigs : list (option bytes)) : bytes :=
+    enc_wsigners W ++ enc_u32 (Nlen sigs) ++ concat (map (fun o => match o with None => [x00] | Some s => x01 :: s end) sigs).
+  Definition g0 := match gw_init keccak256 100 2 dom 10 (be_enc 32 1) [enc_wsigners W] with Some (g, _) => g | None => empty_gw end.
+  Definition w1 : gworld := {| w_gw := g0; w_gov := w_gov w0; w_led := []; w_pend := []; w_next := 0 |}.
+  Definition ops : list vop :=
+    [VGateway (GApprove {| c_caller := relayer; c_owner := be_enc 32 1; c_now := 200 |} batch (proof_bytes [None; Some (sg k2); Some (sg k3)]))].
+End E2E.
+Example c12_end_to_end_nonvacuous :
+  mst (w_gw E2E.w1) (Refuted.chain, str "m1") = None /\
+  match gov_execute keccak256 true (vrun keccak256 E2E.vfo true E2E.w1 E2E.ops) (Refuted.cx 300) Refuted.chain (str "m1") Refuted.gaddr (Refuted.payload 0) with
+  | Some (w', _) => mst (w_gw w') (Refuted.chain, str "m1") = Some MExecuted /\ gv_eta (w_gov w') <> []
+  | None => False
+  end.
+Proof. vm_compute. repeat split; try reflexivity; discriminate. Qed.
+Check c12_command_traces_to_batch.
